@@ -263,3 +263,73 @@ def nontrivial(c, o):
 
 def key(c):
     return json.dumps(c, sort_keys=True)
+
+
+# ---- failure paths (round 12): every third case is preceded by npc calls that the library rejects; they must leave nothing
+# behind.  Extra cases "liptak_one": an observed partial p-value of exactly 1 with Liptak's function (quantile -inf): the
+# combined observed statistic is -inf, every row of the distribution is at least as large, so the global p-value is 1 ----
+_cases_plain, _run_plain, _oracle_plain, _to_coq_plain, _nontrivial_plain = cases, run, oracle, to_coq, nontrivial
+_extra_terms_plain = globals().get("extra_terms")
+
+
+def failing_calls(c):
+    k = c["ff"] % 4
+    p3 = np.array([0.2, 1.0, 0.05])
+    d3 = np.arange(24, dtype=float).reshape(2, 4, 3) / 30.0
+    return [[("3-d distr, liptak", lambda: NPC.npc(p3, d3, "liptak")),
+             ("distr without rows, liptak", lambda: NPC.npc(p3, np.empty((0, 3)), "liptak")),
+             ("unknown combining function", lambda: NPC.npc(p3, np.ones((4, 3)), "Liptak")),
+             ("widths differ, liptak", lambda: NPC.npc(p3, np.ones((4, 2)), "liptak"))][k],
+            ("combining function that is not monotone", lambda: NPC.npc(p3, np.ones((4, 3)), lambda p: float(np.sum(p))))]
+
+
+def cases(tier, rng, dist):
+    def more():
+        yield from _cases_plain(tier, rng, dist)
+        for _ in range(20 if tier == "quick" else 200):
+            B, n = rng.randint(2, 8), rng.randint(2, 4)
+            yield {"f": "liptak_one", "distr": [[rng.randint(0, 9) for _ in range(n)] for _ in range(B)], "p": [str(Fraction(rng.randint(1, 19), 20)) for _ in range(n)],
+                   "one_at": rng.randrange(n), "plus1": rng.random() < 0.5, "as_callable": rng.random() < 0.4}
+    return mark_ff(more())
+
+
+def run(c):
+    ff = fail_first(failing_calls(c)) if "ff" in c else None
+    if c["f"] == "liptak_one":
+        p = np.array([float(Fraction(x)) for x in c["p"]]); p[c["one_at"]] = 1.0
+        d = np.array(c["distr"], dtype=float)
+        comb = NPC.liptak if c["as_callable"] else "liptak"
+        o = {"direct": list(guarded(lambda: float(NPC.liptak(p)))), "npc": list(guarded(lambda: float(NPC.npc(p, d, comb, plus1=c["plus1"])))),
+             "smaller": list(guarded(lambda: float(NPC.npc(np.where(np.arange(len(p)) == c["one_at"], 0.5, p), d, comb, plus1=c["plus1"])))) }
+    else:
+        o = _run_plain(c)
+    if ff is not None and isinstance(o, dict):
+        o["ff"] = ff
+    return o
+
+
+def oracle(c, o):
+    if c["f"] != "liptak_one":
+        return _oracle_plain(c, o)
+    if o["direct"][0] != "ok" or o["direct"][1] != float("-inf"):
+        return {"why": f"liptak({c['p']} with entry {c['one_at']} = 1) = {o['direct'][1:]}, expected -inf (the normal quantile of 0)", "cls": "liptak:value"}
+    # (with the FUNCTION liptak passed as a callable npc does not cap the row p-values, rows can be NaN and are not counted: only
+    # monotonicity is asserted then)
+    if o["npc"][0] != "ok" or (o["npc"][1] != 1.0 and not c["as_callable"]):
+        return {"why": f"npc with an observed partial p-value of exactly 1 (entry {c['one_at']} of {c['p']}), Liptak: global p = {o['npc'][1:]}, but the observed combined statistic is -inf and every row counts: expected 1.0", "cls": "npc:monotone"}
+    if o["smaller"][0] == "ok" and o["smaller"][1] > o["npc"][1] + 1e-12:
+        return {"why": f"npc (Liptak): lowering partial p-value {c['one_at']} from 1 to 0.5 RAISED the global p-value {o['npc'][1]} -> {o['smaller'][1]}", "cls": "npc:monotone"}
+    return None
+
+
+def to_coq(c, o):
+    return None if c["f"] == "liptak_one" else _to_coq_plain(c, o)
+
+
+if _extra_terms_plain is not None:
+    def extra_terms(c, o):
+        return [] if c["f"] == "liptak_one" else _extra_terms_plain(c, o)
+
+
+def nontrivial(c, o):
+    return True if c["f"] == "liptak_one" else _nontrivial_plain(c, o)
